@@ -32,7 +32,9 @@ from common import Ctx, Outcome
 DRIVERS = ["Cache"]
 TABLES = True
 LEVEL = "proof"
-RULE = ("exhaustive product: all subsets of the cache-file universe {d.svg, d.png, d.txt, other.svg, other.png, junk} "
+RULE = ("(second layer) histories of 1-6 calls on one diagram object over all entry points with per-call cache contents, faults at every "
+        "(operation, converter) point and every own cache name x 3 exception kinds, 6 ways of filling the in-memory state; (first layer) "
+        "exhaustive product: all subsets of the cache-file universe {d.svg, d.png, d.txt, other.svg, other.png, junk} "
         "(thorough: + d.svg.bak, d.PNG) x all registered formats + None + an unknown name x render()/as_<fmt> x "
         "pretty_print x fallback_render_aird x internal renderer ok/failing x the ways of giving the cache (str path, "
         "pathlib path, file:// URL, zip+file:// URL, dict forms {path: other directory | the model's own path argument} x "
@@ -43,10 +45,12 @@ RULE = ("exhaustive product: all subsets of the cache-file universe {d.svg, d.pn
         "distinct = distinct (mode, way, model, diagram, files, fmt, via, pretty, fallback, fresh_ok); non-trivial = a "
         "cache is configured and the format is registered (the lookup runs)")
 ASSUMPTIONS = [
-    "converters are total functions: a converter that raises (e.g. PNGFormat.convert without cairosvg) is outside the model; "
-    "cairosvg is absent on this image, so PNGFormat.convert is replaced by a deterministic stub in the harness",
-    "the cache handler's open(name) returns the file stored under exactly that name or raises FileNotFoundError (property C14 "
-    "covers handler path handling); other OSErrors (directory of that name, permissions) propagate and are not modelled",
+    "first layer (Capella.Cache.render): converters are total functions and the handler's open(name) returns the file or raises "
+    "FileNotFoundError; second layer (CacheSM): any converter call and any open() may raise (kinds KeyError / UnknownOutputFormat / "
+    "other), propagated as the except clauses of the code do. cairosvg is absent on this image, so PNGFormat.convert is replaced by a "
+    "deterministic stub in the real-converter runs; PermissionError is injected (the harness runs as root), the directory named "
+    "<uuid><ext> is real",
+    "one call is atomic with respect to the cache contents (no concurrent modification during a call); BaseExceptions are not modelled",
     "diagram uuids are arbitrary strings; the handlers' own name normalisation is composed with the lookup (C14 path model): "
     "names that are not one clean path component are never looked up (modelled: plainName; exercised: uuids 'x/../_D', './_D', "
     "'/_D', ... next to '_D' on local, memory and zip handlers); case-insensitive or Unicode-normalising file systems are not modelled",
@@ -66,10 +70,16 @@ MANIFEST = dict(
           "one. The live entry-point table is generated into Lean and its well-formedness (chains end, dispatch tests agree, "
           "extensions suffix-free, cache-loadable converters registered, unique ids) is checked by the kernel. Tie: exhaustive "
           "differential run (all cache-file subsets x formats x flags x ways of specifying the cache) comparing traces and "
-          "results of the real code with the model, plus an independent brute-force monitor."),
+          "results of the real code with the model, plus an independent brute-force monitor. Second layer: converters and handler may "
+          "raise, the object's in-memory render state and every entry point (render, as_<fmt>, __html__, __repr__, _repr_mimebundle_, "
+          "save) are in the model; proved for all call sequences: a render whose lookup is decided by the cache has the output of a fresh "
+          "object; on every path a returned value is the complete conversion of this diagram's own cache file (or of the internal "
+          "rendering), never partial, never another diagram's."),
     design_ref="§6 C19",
-    note=("Trusted: Lean kernel; the instrumentation stubs; cairosvg is absent so PNG conversion is stubbed; converters that raise, "
-          "OSErrors other than FileNotFoundError and _repr_mimebundle_ are not modelled."),
+    note=("Trusted: Lean kernel; the instrumentation stubs; cairosvg is absent so PNG conversion is stubbed. Second layer (CacheSM): raising "
+          "converters / handlers, the in-memory render state and the entry points as_<fmt>, __html__, __repr__, _repr_mimebundle_, save are "
+          "modelled and run as call sequences with faults at particular points; two known findings of _repr_mimebundle_ (renders internally "
+          "regardless of the fallback flag; does not use a cached ancestor format)."),
     technique="Lean 4 proof (induction over converter chains, generated table checked by decide +kernel) + exhaustive trace-level differential correspondence",
 )
 
@@ -1071,7 +1081,9 @@ def judge_seq(out: Outcome, D, table, w: "World", d, hist: dict, k: int, call: d
                 fail("reads-foreign-file", f"the value derives from {leaf[1]!r}, not a cached file of diagram {uuid}")
                 continue
             src_cv = exts[str(leaf[1])[len(uuid):]]
-            fmts_ = [seq_format_of(call)] if call["entry"] != "mimebundle" else [name_of(table, src_cv)]
+            # a bundle item is the format of its own MIME type; the text/plain fallback is repr(): termgraphics
+            fmts_ = [seq_format_of(call)] if call["entry"] != "mimebundle" else (
+                ["termgraphics"] if res["ok"][0] == "bundle_text" else [name_of(table, src_cv)])
             f = fmts_[0]
             if f in table and src_cv in table[f]:
                 want = full_term(table[f][: table[f].index(src_cv)], ["from_cache", name_id(src_cv), leaf], False, D)
@@ -1127,8 +1139,9 @@ def judge_seq(out: Outcome, D, table, w: "World", d, hist: dict, k: int, call: d
             fail("fresh-without-fallback", "nothing cached, fallback off, but the internal renderer ran")
         if raising and res != {"raise": "NotInCache"}:
             fail("miss-no-error", f"nothing cached, fallback off, result {res}")
-        if call["entry"] in ("as", "html") and "ok" in res and leaf_of(values_of(res["ok"])[0]) != ["error_image", "render", "NotInCache"]:
-            fail("miss-no-error", f"nothing cached, fallback off, result {res}")
+        if call["entry"] in ("as", "html") and ("ok" not in res or leaf_of(values_of(res["ok"])[0]) != ["error_image", "render", "NotInCache"]) \
+                and not (hist.get("conv_faults") and "raise" in res and res["raise"].startswith("Injected")):
+            fail("miss-no-error-image", f"nothing cached, fallback off: the 'not in cache' error image is expected, result {res}")
         if call["entry"] == "repr" and res != {"ok": ["repr"]}:
             fail("miss-no-error", f"nothing cached, fallback off, repr drew {res}")
 
